@@ -628,7 +628,7 @@ func (f *Frame) blockEntry(b *ssa.BasicBlock) *State {
 	// 0. automatic invariant of range-over-slice loops: the hidden index never drops below -1
 	var autoPhis []*ssa.Phi
 	for _, in := range b.Instrs {
-		if phi, ok := in.(*ssa.Phi); ok && phi.Comment == "rangeindex" {
+		if phi, ok := in.(*ssa.Phi); ok && (phi.Comment == "rangeindex" || phi.Comment == "rangeint.iter") {
 			autoPhis = append(autoPhis, phi)
 		}
 	}
@@ -722,6 +722,18 @@ func rangeBound(phi *ssa.Phi) ssa.Value {
 // autoRangeInv: -1 <= ri, and ri is -1 or below the length of the ranged value
 func (f *Frame) autoRangeInv(phi *ssa.Phi, ri Sx) Sx {
 	c := f.tr.c
+	if phi.Comment == "rangeint.iter" {
+		// `for i := range n`: the body is entered only when 0 < n; 0 <= i < n throughout
+		inv := c.it.le(I64, c.it.iconst(0), ri)
+		if b := rangeBound(phi); b != nil {
+			if bv, ok := f.vals[b]; ok && bv.t != "" {
+				inv = and(inv, c.it.lt(I64, ri, bv.t))
+			} else if cv, ok := b.(*ssa.Const); ok {
+				inv = and(inv, c.it.lt(I64, ri, f.tr.constVal(cv.Type(), cv.Value).t))
+			}
+		}
+		return inv
+	}
 	inv := c.it.le(I64, c.it.iconst(-1), ri)
 	if b := rangeBound(phi); b != nil {
 		if bv, ok := f.vals[b]; ok && bv.t != "" {
@@ -820,7 +832,7 @@ func (f *Frame) takeEdge(b *ssa.BasicBlock, succ *ssa.BasicBlock, st *State) {
 		hs := f.headerSt[succ.Index]
 		if li != nil && tr.safety {
 			for phi, v := range pv {
-				if phi.Comment == "rangeindex" {
+				if phi.Comment == "rangeindex" || phi.Comment == "rangeint.iter" {
 					c.addObl(&Obligation{Name: fmt.Sprintf("%s#loop%d.auto.keep", tr.oblPrefix, li.ord), Kind: "inv.keep",
 						Guard: st.guard, Goal: f.autoRangeInv(phi, v.t), Pos: "-1 <= rangeindex && (rangeindex == -1 || rangeindex < len)", Func: tr.oblPrefix})
 				}
